@@ -209,9 +209,11 @@ pub fn session(rng: &mut Rng) -> Generated {
                     &format!(
                         "{def}
                          (define n{t} 0)
-                         (map (lambda (x) (* 10 (call/cc (lambda (c) (if (= x {at}) {store}) x)))) '(0 1 2 3))
+                         (define kept{t} '())
+                         (begin (set! kept{t} (cons (map (lambda (x) (* 10 (call/cc (lambda (c) (if (= x {at}) {store}) x)))) '(0 1 2 3)) kept{t})) (length kept{t}))
                          (if (< n{t} {times}) (begin (set! n{t} (+ n{t} 1)) ({fetch} (+ 50 n{t}))) 'stop)
-                         (if (< n{t} {times}) (begin (set! n{t} (+ n{t} 1)) ({fetch} (+ 50 n{t}))) 'stop)",
+                         (if (< n{t} {times}) (begin (set! n{t} (+ n{t} 1)) ({fetch} (+ 50 n{t}))) 'stop)
+                         kept{t}",
                         def = def,
                         t = t,
                         store = store,
